@@ -223,7 +223,7 @@ Definition ends_well (s : state) : bool :=
   match s_lock s with None => true | Some _ => false end.
 Definition w_xall_sched : list nat := w_prefix ++ repeat 2 11 ++ repeat 1 9 ++ repeat 2 3 ++ repeat 1 4.
 Definition w_lost_sched : list nat := w_prefix ++ repeat 2 12 ++ repeat 1 9 ++ repeat 2 2 ++ repeat 1 4.
-Definition w_mex_sched : list nat := w_prefix ++ repeat 2 32 ++ repeat 1 6 ++ repeat 2 36 ++ repeat 1 16.
+Definition w_mex_sched : list nat := w_prefix ++ repeat 2 32 ++ repeat 1 6 ++ repeat 2 34 ++ repeat 1 16.
 
 Lemma refute_inv_full : forall freq frac rows progs sched,
   match run (init freq frac rows progs) sched with
